@@ -71,6 +71,7 @@ def check(ctx):
         for cv in convs:
             for _ in range(2):
                 fl = rng.choice(flagsets) if rng.random() < 0.6 else ""
+                fl = "".join(rng.sample(fl, len(fl)))          # flags in any order
                 wd = rng.choice(widths)
                 r = rng.random()
                 pr = "" if r < 0.15 else ("." if r < 0.2 else (".*" if r < 0.3 else "." + str(rng.randrange(0, 18))))
